@@ -66,3 +66,43 @@ def pointer_predicates(dm):
         if ops is not None:
             sem[name] = ops
     return sem
+
+
+def atoms(test, out=None):
+    """atomic sub-tests (leaves under not/and/or), by source text"""
+    out = [] if out is None else out
+    if isinstance(test, ast.UnaryOp) and isinstance(test.op, ast.Not):
+        atoms(test.operand, out)
+    elif isinstance(test, ast.BoolOp):
+        for v in test.values:
+            atoms(v, out)
+    else:
+        t = ast.unparse(test)
+        if t not in out:
+            out.append(t)
+    return out
+
+
+def chain_atoms(stmts):
+    out = []
+    for st in stmts:
+        if isinstance(st, ast.If):
+            atoms(st.test, out)
+            for t in chain_atoms(st.body) + chain_atoms(st.orelse):
+                if t not in out:
+                    out.append(t)
+    return out
+
+
+def outcomes(stmts, fixed, limit=4096):
+    """Enumerate every truth assignment of the atoms of the if-chains in `stmts` that are not in
+    `fixed` (source text -> bool); yield (assignment, executed simple statements)."""
+    import itertools
+    free = [a for a in chain_atoms(stmts) if a not in fixed]
+    if 2 ** len(free) > limit:
+        raise ValueError("too many atoms: %d" % len(free))
+    for bits in itertools.product((False, True), repeat=len(free)):
+        asg = dict(fixed)
+        asg.update(zip(free, bits))
+        taken = take(stmts, lambda e, asg=asg: asg.get(ast.unparse(e)))
+        yield asg, taken
